@@ -24,6 +24,17 @@ type c11Ext struct {
 	failStart, failStop bool
 }
 
+// c11Watcher is an extension that is also a status watcher: the property's observation point. Events reach it only
+// through the real Extensions.NotifyComponentStatusChange.
+type c11Watcher struct {
+	c11Ext
+	seen map[string][]componentstatus.Status // instance name -> events delivered to THIS watcher
+}
+
+func (w *c11Watcher) ComponentStatusChanged(src *componentstatus.InstanceID, ev *componentstatus.Event) {
+	w.seen[src.ComponentID().Name()] = append(w.seen[src.ComponentID().Name()], ev.Status())
+}
+
 func (e *c11Ext) Start(context.Context, component.Host) error {
 	e.started = true
 	if e.failStart {
@@ -52,24 +63,47 @@ func TestVerifC11Extensions(t *testing.T) {
 		out.Linef("case %d", c)
 		k := 1 + rnd.IntN(5)
 		exts := map[string]*c11Ext{}
+		watchers := map[string]*c11Watcher{}
+		impl := map[string]extension.Extension{}
 		cfgs := map[component.ID]component.Config{}
 		var ids []component.ID
 		for i := 0; i < k; i++ {
 			name := fmt.Sprintf("x%d", i)
-			exts[name] = &c11Ext{failStart: rnd.IntN(8) == 0, failStop: rnd.IntN(5) == 0}
+			if rnd.IntN(3) == 0 {
+				w := &c11Watcher{c11Ext: c11Ext{failStart: rnd.IntN(8) == 0, failStop: rnd.IntN(5) == 0}, seen: map[string][]componentstatus.Status{}}
+				watchers[name], exts[name], impl[name] = w, &w.c11Ext, w
+			} else {
+				exts[name] = &c11Ext{failStart: rnd.IntN(8) == 0, failStop: rnd.IntN(5) == 0}
+				impl[name] = exts[name]
+			}
 			id := component.MustNewIDWithName("x", name)
 			cfgs[id] = &struct{}{}
 			ids = append(ids, id)
 		}
+		// service::extensions may name an extension more than once (nothing rejects it): still ONE instance per id, started
+		// and stopped once, and a watcher is told every event once
+		dups := 0
+		if rnd.IntN(4) == 0 {
+			for r := 1 + rnd.IntN(2); r > 0; r-- {
+				ids = append(ids, ids[rnd.IntN(k)])
+				dups++
+			}
+			rnd.Shuffle(len(ids), func(i, j int) { ids[i], ids[j] = ids[j], ids[i] })
+		}
 		f := extension.NewFactory(ty, func() component.Config { return &struct{}{} },
 			func(_ context.Context, s extension.Settings, _ component.Config) (extension.Extension, error) {
-				return exts[s.ID.Name()], nil
+				return impl[s.ID.Name()], nil
 			}, component.StabilityLevelStable)
 		events := map[string][]componentstatus.Status{}
+		var es *Extensions
 		rep := status.NewReporter(func(id *componentstatus.InstanceID, ev *componentstatus.Event) {
 			events[id.ComponentID().Name()] = append(events[id.ComponentID().Name()], ev.Status())
+			if es != nil {
+				es.NotifyComponentStatusChange(id, ev) // as graph.Host does: the only way events reach watcher extensions
+			}
 		}, func(error) {})
-		es, err := New(context.Background(), Settings{
+		var err error
+		es, err = New(context.Background(), Settings{
 			Telemetry:  componenttest.NewNopTelemetrySettings(),
 			BuildInfo:  component.NewDefaultBuildInfo(),
 			Extensions: builders.NewExtension(cfgs, map[component.Type]extension.Factory{ty: f}),
@@ -81,6 +115,7 @@ func TestVerifC11Extensions(t *testing.T) {
 		}
 		startErr := es.Start(context.Background(), componenttest.NewNopHost())
 		_ = es.Shutdown(context.Background())
+		_ = impl
 		var names []string
 		for name := range exts {
 			names = append(names, name)
@@ -100,7 +135,27 @@ func TestVerifC11Extensions(t *testing.T) {
 			}
 			out.Linef("obs events %s %s", name, csv)
 			anyFail = anyFail || e.failStart || e.failStop
+			// every watcher extension must have been shown exactly the same events for this instance
+			var wn []string
+			for w := range watchers {
+				wn = append(wn, w)
+			}
+			sort.Strings(wn)
+			for _, w := range wn {
+				var q []string
+				for _, s := range watchers[w].seen[name] {
+					q = append(q, strconv.Itoa(int(s)))
+				}
+				wcsv := strings.Join(q, ",")
+				if wcsv == "" {
+					wcsv = "-"
+				}
+				out.Linef("op life name=%s@%s started=%d ds=- fs=%d allok=%d run=- dstop=- fstop=%d", name, w, vB(e.started), vB(e.failStart), vB(startErr == nil), vB(e.failStop))
+				out.Linef("obs events %s@%s %s", name, w, wcsv)
+			}
 		}
+		out.Linef("stat watchers %d", len(watchers))
+		out.Linef("stat repeated_ids %d", dups)
 		if anyFail {
 			out.Linef("nt")
 		}
